@@ -86,8 +86,11 @@ class Run:
             "coverage": cov, "assumptions": self.assumptions, "wall_s": round(wall, 1),
             "violations": len(self.violations),
         }
-        os.makedirs(os.path.join(VERIF, "evidence"), exist_ok=True)
-        with open(os.path.join(VERIF, "evidence", self.pid + ".json"), "w") as f:
+        # the registered commands write /verif/evidence; calibration and seed runs against a tree
+        # other than /repo's unchanged working tree are pointed elsewhere (VERIF_EVIDENCE_DIR)
+        evdir = os.environ.get("VERIF_EVIDENCE_DIR") or os.path.join(VERIF, "evidence")
+        os.makedirs(evdir, exist_ok=True)
+        with open(os.path.join(evdir, self.pid + ".json"), "w") as f:
             json.dump(ev, f, indent=1)
         for key, what in self.known_hits:
             print("KNOWN-FINDING: property=%s %s [%s]" % (self.pid, what, key))
